@@ -91,4 +91,12 @@ CHECKS = {
              "checks": ["c08-adapter-history"]},
         ],
     },
+    "C01": {
+        "level": "exploration",
+        "groups": [
+            {"name": "c01", "run": "^TestC01_", "shards": {"quick": 16, "thorough": 16},
+             "timeout": {"quick": 900, "thorough": 3000},
+             "checks": ["c01-delivery"]},
+        ],
+    },
 }
